@@ -162,4 +162,115 @@ theorem choice_label_dom {x : Survey} (hn : (x.lists.map (·.name)).Nodup) {cl :
     RefsValue x lang (choiceId cl.name i) none c items :=
   long_dom x (value_choice_label hn hl hr hi hlab hfun hlong hlt) hs hc hin
 
+/-! ### guidance hint: the `form="guidance"` value under the hint id -/
+
+theorem takeWhile_stop {α} (p : α → Bool) (a : List α) (c : α) (b : List α) (hc : p c = false) :
+    (a ++ c :: b).takeWhile p = a.takeWhile p := by
+  induction a with
+  | nil => simp [List.takeWhile, hc]
+  | cons h t ih =>
+    simp only [List.cons_append, List.takeWhile_cons]
+    split
+    · rw [ih]
+    · rfl
+
+/-- the display element of an id `xpath:display` is what follows the last colon of `display` -/
+theorem labelType_path (xp d : Str) : labelType (xp ++ ':' :: d) = labelType d := by
+  unfold labelType
+  rw [List.reverse_append, List.reverse_cons, List.append_assoc]
+  simp only [List.singleton_append]
+  rw [takeWhile_stop _ _ _ _ (by simp)]
+
+theorem formOf_guidance (xp : Str) : formOf (path xp "hint") "guidance".toList = some "guidance".toList := by
+  unfold formOf path
+  rw [labelType_path]
+  decide
+
+/-- **translated guidance hint with references**, per language: the `<value form="guidance">` under the hint id -/
+theorem guidance_dom {x : Survey} (hx : ((flats x).map (·.xpath)).Nodup) {f : Flat} (hf : f ∈ flats x)
+    (hv : visited f = true) {pairs : List (Str × Str)} (hl : f.d.guidance = .dict pairs) (hfun : Functional pairs)
+    {l : Str} {c : Cell} {items : List (Str × Str)} (hlt : (l, c.text) ∈ pairs)
+    (hs : stated x (path f.xpath "hint") = true)
+    (hc : CellShape (nameRefs x) c items) (hi : NoInstanceExpr c.text) :
+    RefsValue x l (path f.xpath "hint") (some "guidance".toList) c items := by
+  have hk : textKind (path f.xpath "hint") "guidance".toList = true := by
+    unfold textKind path
+    rw [labelType_path]
+    decide
+  obtain ⟨tds, h1, vs, h2, h3⟩ := dom_of_valueAt x (value_guidance hx hf hv hl hfun hlt) hk (by simp [hs])
+  rw [formOf_guidance, value_dom_refs _ _ c items hc hi] at h3
+  exact ⟨tds, h1, vs, h2, h3⟩
+
+/-! ## 3. Non-vacuity -/
+
+/-- question `n` with a translated label (two references in English, markup characters around them), a translated
+hint and a translated guidance hint, next to the referenced questions -/
+def exSurvey : Survey :=
+  { defaultLanguage := "default".toList
+    lists := []
+    root := .node (C07.q .group "data" .none .none .none) [
+      .node (C07.q .control "a" (.str "A".toList) .none .none) [],
+      .node (C07.q .control "n" (C07.tr [("en", "Hi ${a}, <b> & ${last-saved#a}!"), ("fr", "Salut")])
+              (C07.tr [("fr", "h ${a}")]) (C07.tr [("fr", "${a} g")])) [] ] }
+
+def exC : Cell := ⟨"Hi ".toList, [("a".toList, ", <b> & ".toList), ("last-saved#a".toList, "!".toList)]⟩
+def exI : List (Str × Str) :=
+  [(" /data/a ".toList, ", <b> & ".toList), (" instance('__last-saved')/data/a ".toList, "!".toList)]
+def exG : Cell := ⟨[], [("a".toList, " g".toList)]⟩
+def exGI : List (Str × Str) := [(" /data/a ".toList, " g".toList)]
+
+instance (ps : List (Str × Str)) : Decidable (Functional ps) := by unfold Functional; infer_instance
+
+theorem exC_shape : CellShape (nameRefs exSurvey) exC exI :=
+  ⟨by decide, ⟨by decide, by decide, by decide, by decide, trivial⟩, by decide +kernel,
+   ⟨by decide, by decide, trivial⟩, by decide⟩
+
+theorem exG_shape : CellShape (nameRefs exSurvey) exG exGI :=
+  ⟨by decide, ⟨by decide, by decide, trivial⟩, by decide +kernel, ⟨by decide, trivial⟩, by decide⟩
+
+/-- `value_dom_refs` / `value_dom_plain` instantiated -/
+example : valueDom (nameRefs exSurvey) (some "guidance".toList) exC.text =
+    .ok (.elem valueTag [("form".toList, "guidance".toList)] (cellKids true exC.head exI)) := by
+  rw [value_dom_refs _ _ exC exI exC_shape (by decide +kernel)]
+  have : textsValid exC.head exI = true := by decide +kernel
+  simp [this, formAttr]
+example : valueDom [] none "<b> & $ { }".toList = .ok (.elem valueTag [] [.text false "<b> & $ { }".toList]) :=
+  value_dom_plain [] none _ (by decide) (by decide +kernel)
+
+/-- `dom_entry_text`, `dom_of_valueAt`, `long_dom` instantiated: the English label of `n` in the itext block -/
+example : RefsValue exSurvey "en".toList (path "/data/n".toList "label") none exC exI :=
+  long_dom exSurvey (by decide +kernel) (by decide +kernel) exC_shape (by decide +kernel)
+
+/-- … and computed by the kernel, as `writexml` serialises it (boundary spaces of mixed content included): the typed
+`<b> &` is character data, the two references are the only elements -/
+example :
+    (outDoms exSurvey).any (fun lt => lt.1 == "en".toList && lt.2.any fun td =>
+      td.1 == "/data/n:label".toList && td.2.any fun fv => fv.1 == none &&
+        (match fv.2 with
+         | some (.ok n) => render [] [] [] n ==
+             "<value> Hi <output value=\" /data/a \"/>, &lt;b&gt; &amp; <output value=\" instance('__last-saved')/data/a \"/>! </value>".toList
+         | _ => false)) = true := by decide +kernel
+
+/-- the hypotheses of `label_dom` / `hint_dom` / `guidance_dom` / `msg_dom` hold for `n` in `exSurvey`: `label_dom`
+and `guidance_dom` instantiated at the element itself -/
+example :
+    RefsValue exSurvey "en".toList (path ((flats exSurvey)[1]'(by decide +kernel)).xpath "label") none exC exI ∧
+    RefsValue exSurvey "fr".toList (path ((flats exSurvey)[1]'(by decide +kernel)).xpath "hint")
+      (some "guidance".toList) exG exGI := by
+  have hx : ((flats exSurvey).map (·.xpath)).Nodup := by decide +kernel
+  have hm : ((flats exSurvey)[1]'(by decide +kernel)).d.media = none := by decide +kernel
+  refine ⟨label_dom hx (List.getElem_mem _) (by decide +kernel)
+      (pairs := [("en".toList, exC.text), ("fr".toList, "Salut".toList)]) (by decide +kernel)
+      ⟨by decide, fun m h => by rw [hm] at h; cases h⟩ (by decide) (by decide +kernel) exC_shape (by decide +kernel), ?_⟩
+  exact guidance_dom hx (List.getElem_mem _) (by decide +kernel)
+      (pairs := [("fr".toList, exG.text)]) (by decide +kernel) (by decide) (by decide) (by decide +kernel) exG_shape
+      (by decide +kernel)
+
+/-- non-vacuity of `choice_label_dom` / `msg_dom`: their value-level hypotheses are those of `value_choice_label` /
+`value_msg` (witnessed in `C07Text`); the cell hypotheses are `exC_shape` -/
+example : CellShape (nameRefs exSurvey) exC exI ∧ NoInstanceExpr exC.text ∧
+    stated exSurvey (choiceId "c".toList 0) = true ∧
+    stated exSurvey (path "/data/n".toList "jr:constraintMsg") = true :=
+  ⟨exC_shape, by decide +kernel, by decide +kernel, by decide +kernel⟩
+
 end Pyxv.C07Output
